@@ -128,6 +128,68 @@ def generate(rng: random.Random, tier: str):
                 yield nodecut_case(fam, doc, a, c)
 
 
+    # slices whose open depths are DEEPER than their content's spine on one or both sides (appended stream): Slice() checks
+    # nothing, Node.replace must refuse them (ReplaceError) or splice them correctly - never return something else or die
+    # with an internal error (seeded change C02-7 dropped the end-side depth check of prepare_slice_for_replace)
+    for fam in gen.FAMILY:
+        g = gen.DocGen(gen.family(fam), rng)
+        docs = [g.doc(rng.randint(2, 5)) for _ in range(6 if quick else 80)]
+        docs = [d for d in docs if d.content.size <= 60] or docs[:1]
+        for doc in docs:
+            n = doc.content.size
+            pairs = [(a, c) for a in range(n + 1) for c in range(a, n + 1)]
+            depth = {}
+            for p in range(n + 1):
+                try:
+                    depth[p] = doc.resolve(p).depth
+                except ValueError:
+                    pass
+            for _ in range(10 if quick else 40):
+                other = rng.choice(docs)
+                m = other.content.size
+                x = rng.randint(0, m)
+                y = rng.randint(x, m)
+                try:
+                    s2 = other.slice(x, y)
+                except ValueError:
+                    continue
+                side = rng.choice(["end", "end", "start", "both"])
+                ks = rng.randint(1, 2) if side in ("start", "both") else 0
+                ke = rng.randint(1, 2) if side in ("end", "both") else 0
+                content = s2.content
+                if rng.random() < 0.3:      # an empty node as the whole content: any open depth > 1 is too deep
+                    kinds = [t for t in gen.family(fam).nodes.values() if not t.is_leaf and not t.is_text]
+                    made = rng.choice(kinds).create_and_fill()
+                    if made is not None:
+                        content, s2 = Fragment.from_(made), Slice(Fragment.from_(made), 0, 0)
+                s3 = Slice(content, s2.open_start + ks, s2.open_end + ke)
+                fit = [(a, c) for a, c in pairs if a in depth and c in depth
+                       and depth[a] - s3.open_start == depth[c] - s3.open_end and s3.open_start <= depth[a]]
+                a, c = rng.choice(fit) if fit and rng.random() < 0.8 else rng.choice(pairs)
+                yield replace_case(fam, doc, a, c, s3, False, False)
+
+
+    # a schema with an inline atom that has content (appended stream): sizes, slices and replaces around and inside it
+    for fam in gen.ATOMIC_FAMILY:
+        sc = gen.family(fam)
+        g = gen.DocGen(sc, rng)
+        docs = [g.doc(rng.randint(2, 4)) for _ in range(30 if quick else 300)]
+        docs = [d for d in docs if d.content.size <= 50 and "footnote" in str(d)][: (6 if quick else 60)]
+        fixed = sc.node("doc", None, [sc.node("paragraph", None, [sc.text("ab"), sc.node("footnote", None, [sc.text("xy")]), sc.text("cd")])])
+        for doc in [fixed] + docs:
+            n = doc.content.size
+            pairs = [(a, c) for a in range(n + 1) for c in range(a, n + 1)]
+            for a, c in (pairs if len(pairs) <= 20 else rng.sample(pairs, min(len(pairs), 20 if quick else 40))):
+                yield slice_case(fam, doc, a, c)
+            for a, c in rng.sample(pairs, min(len(pairs), 8 if quick else 20)):
+                try:
+                    sl = doc.slice(a, c)
+                except ValueError:
+                    continue
+                yield replace_case(fam, doc, a, c, sl, True, True)
+                yield replace_case(fam, doc, a, c, g.slice_from(rng.choice([fixed] + docs)), True, False)
+
+
 def rebuild(desc):
     fam = desc["family"]
     sc = gen.family(fam)
